@@ -180,6 +180,7 @@ type Config struct {
 	LoneLimit     int
 	MapBase       string
 	YieldOnMake   bool
+	YieldOnMap    bool
 	ClockAdvance  bool
 	KeepTrace     bool
 	WallLimit     time.Duration
